@@ -107,6 +107,11 @@ def correspond(ctx: Ctx) -> Result:
                         if quiet:
                             res.failures.append(Failure("C03:async:wait-did-not-raise-on-every-rank",
                                                         f"write #{fn_} of rank {fr} failed but wait() returned normally on ranks {quiet} [W={wl['W']} sched={sched}]", replay))
+                        again = sorted({e["rank"] for e in world.events if e["kind"] == "second_wait_returned"})
+                        if again:
+                            res.failures.append(Failure("C03:async:second-wait-returned-normally-after-a-failure",
+                                                        f"write #{fn_} of rank {fr} failed: wait() raised, a second wait() on the same PendingSnapshot returned normally on ranks {again} "
+                                                        f"although nothing was committed [W={wl['W']} sched={sched}]", replay))
                         hung = [r for r in range(wl["W"]) if isinstance(world.errors[r], Deadlock)]
                         fg = cc.foreground_failure(world, fr)
                         res.count("async.failure_phase", "foreground (async_take raised)" if fg else "background")
